@@ -1222,11 +1222,30 @@ func domReduce(r *engine.Run, rule string) {
 					none = e
 				}
 			}
-			for i, e := range ph.Edges {
+			// the values that flow into the scan variable, each with the block it comes
+			// from; a merge in the loop's post block (continue / assignment) is looked through
+			type inflow struct {
+				v    ssa.Value
+				pred *ssa.BasicBlock
+			}
+			var flows []inflow
+			var collect func(p *ssa.Phi, depth int)
+			collect = func(p *ssa.Phi, depth int) {
+				for i, e := range p.Edges {
+					if p2, ok := e.(*ssa.Phi); ok && p2 != ph && depth < 3 && !scanInduction(p2) {
+						collect(p2, depth+1)
+						continue
+					}
+					flows = append(flows, inflow{e, p.Block().Preds[i]})
+				}
+			}
+			collect(ph, 0)
+			for _, fl := range flows {
+				e := fl.v
 				if _, isC := intConst(e); isC || e == ssa.Value(ph) {
 					continue
 				}
-				pred := ph.Block().Preds[i]
+				pred := fl.pred
 				n++
 				nonNil, first := false, false
 				if facts, ok := engine.FactsOn(f, pred); ok {
@@ -1258,6 +1277,16 @@ func domReduce(r *engine.Run, rule string) {
 	if n < 2 {
 		r.Anchor(rule, fmt.Errorf("unresolved anchor: only %d reduction sites found in delete", n))
 	}
+}
+
+// scanInduction: the loop's own induction variable (i = i + 1).
+func scanInduction(ph *ssa.Phi) bool {
+	for _, e := range ph.Edges {
+		if b, ok := e.(*ssa.BinOp); ok && (b.X == ssa.Value(ph) || b.Y == ssa.Value(ph)) {
+			return true
+		}
+	}
+	return false
 }
 
 // scanPhi: an int phi that merges constants (sentinels) with non-constant slot numbers.
